@@ -27,7 +27,37 @@ COMMON_ASSUMPTIONS = [
 TECH = ("contract-based deductive verification: sidecar pre/postconditions on the real functions, "
         "VCs generated from /repo's AST by pyvc, discharged by z3/cvc5")
 
+K3_NOTE = ("K3: the verified text is code emitted by the real compiler for schema templates; holes obey "
+           "HoleC, probes are arbitrary expressions. Assumptions: A-COMP (compositionality of code "
+           "generation), A-PURE (expressions have no side effect on the render state), A-MARKER, "
+           "FRESH side conditions (id-suffixed locals are node-unique; checked by the FRESH units).")
+K3_ASSUME = COMMON_ASSUMPTIONS + ["A-COMP", "A-PURE", "A-MARKER", "HoleC for child code",
+                                  "K2 contracts of __quote/__convert (proved under C02)"]
+TAL_BASIC = [K("k3::S-Define"), K("k3::S-Condition"), K("k3::S-Content"), K("k3::S-OmitTag"),
+             K("k3::S-Attribute"), K("k3::S-Repeat")]
+
 PROPS = {
+    "C01": {
+        "technique": TECH + "; applied to code emitted by the real compiler for schema templates (K3)",
+        "level_text": "For each TAL statement the emitted render code is proved, for all values, all "
+                      "child behaviours (HoleC) and all iteration counts, to produce the stream and the "
+                      "evaluation trace the language prescribes.",
+        "level_note": K3_NOTE + " Not yet decided: statement combinations on one element and attribute-order independence.",
+        "units": TAL_BASIC,
+        "not_decided": ["combinations of statements on one element (in progress)",
+                        "independence of attribute order (in progress)"],
+        "assumptions": K3_ASSUME,
+    },
+    "C13": {
+        "technique": TECH + "; applied to code emitted by the real compiler for schema templates (K3)",
+        "level_text": "The emitted try/except for tal:on-error is proved to replace exactly the failed "
+                      "element's output by start tag + converted fallback + end tag, to call the handler "
+                      "once iff configured, to bind `error`, and to let non-Exceptions propagate.",
+        "level_note": K3_NOTE,
+        "units": [K("k3::S-OnError-keep")],
+        "not_decided": ["nested on-error (FRESH side condition, in progress)"],
+        "assumptions": K3_ASSUME,
+    },
     "C02": {
         "technique": TECH + "; rule HOM (per-character instance + concatenation lemma) for str.replace chains",
         "level_text": "The convert-and-escape routine emitted into every render function (__quote, K2 "
